@@ -95,8 +95,24 @@ def get_attribute_value(attrs: list, name: str):
 def unquoted(scanner: Scanner):
     "Consumes unquoted value"
     start = scanner.pos
-    if scanner.eat_while(is_unquoted):
+    while scanner.eat_while(is_unquoted) or eat_inner_slash(scanner):
+        pass
+
+    if scanner.pos != start:
         scanner.start = start
+        return True
+
+    return False
+
+
+def eat_inner_slash(scanner: Scanner):
+    """
+    Consumes slash which is a part of unquoted value, e.g. `<a href=/path/to>`:
+    the one that is not followed by `>` and thus doesn’t close tag as in `<br class=a/>`
+    """
+    pos = scanner.pos
+    if scanner.peek() == Chars.Slash and (pos + 1 >= scanner.end or scanner.string[pos + 1] != Chars.RightAngle):
+        scanner.pos += 1
         return True
 
     return False
